@@ -19,9 +19,19 @@ def run(tier, replay=None):
     total = pipeline.run(builts, cells, "vlib.checks._cat", "plan_dump", {"cap": cap, "flags": ""},
                          deadline_s=700 if tier == "quick" else 3600)
     _cat.report_pipeline(rep, builts, total, "dec")
-    rep.set("evaluations", total.cases)
-    rep.set("decoded_ok", total.ok)
-    rep.set("distinct_nontrivial", len(total.distinct))
+    # kinds: every primitive / representation kind with the full boundary value set, on more cells
+    from ..enum import kinds
+    kcells = cxx.QUICK_CELLS if tier == "quick" else cxx.ALL_CELLS
+    ks = [(kinds.kinds_schema(bo), None) for bo in ("littleEndian", "bigEndian")]
+    ks = [(s, [m.name for m in s.msgs]) for s, _ in ks]
+    kb = pipeline.prepare("kinds-" + tier, ks, kcells)
+    ktotal = pipeline.run(kb, kcells, "vlib.checks._cat", "plan_dump_kinds", {"cap": 8 if tier == "quick" else 30, "flags": ""})
+    _cat.report_pipeline(rep, kb, ktotal, "dec-kinds")
+    rep.set("kinds_evaluations", ktotal.cases)
+    rep.set("kinds_cells", [cxx.cell_name(c) for c in kcells])
+    rep.set("evaluations", total.cases + ktotal.cases)
+    rep.set("decoded_ok", total.ok + ktotal.ok)
+    rep.set("distinct_nontrivial", len(total.distinct) + len(ktotal.distinct))
     rep.set("rule", "one evaluation = one (message shape, size vector, value vector, reader, cell) image decoded completely; "
                     "distinct = distinct (shape, size vector); every image comes from the reference encoder, never from sbepp")
     rep.assume("compared: every value (bit pattern), every constant, every view address; cursor positions and size queries are C04/C05's observations and are filtered out here")
